@@ -9,6 +9,11 @@ rsync -a --delete --exclude target /verif/harness/ $H/harness/
 sed -i "s#/repo#$WT#g" $H/harness/Cargo.toml
 sed -i "s#target-dir = \"/verif/target\"#target-dir = \"$H/target\"#" $H/harness/.cargo/config.toml
 cp /verif/known_findings.json $H/v/
+# the Miri kernel stage, bound to the same worktree
+rsync -a --delete --exclude target /verif/miri/ $H/miri/
+sed -i "s#/repo#$WT#g" $H/miri/Cargo.toml
+sed -i "s#target-dir = .*#target-dir = \"$H/miri/target\"#" $H/miri/.cargo/config.toml
+export VERIF_MIRI_DIR=$H/miri
 cd $H/harness && CARGO_NET_OFFLINE=true cargo build --offline --profile chk > $H/build.log 2>&1 || { echo "BUILD-FAILED"; tail -5 $H/build.log; cd $WT && git checkout -q -- .; exit 8; }
 rm -rf $H/v/evidence/replay/$P; VERIF_DIR=/verif $H/target/chk/mv check $P --tier $TIER --verif $H/v > $H/out-$P-$(basename $PATCH).log 2>&1
 RC=$?
